@@ -11,7 +11,9 @@ os.environ["VERIF_NO_INLINE"] = "1"
 from sa.model import Project  # noqa: E402
 
 P = Project.from_dir(sys.argv[1] if len(sys.argv) > 1 else "/repo/src")
-out = {"functions": sorted(P.funcs), "classes": sorted(P.classes), "commit": os.popen("git -C /repo rev-parse --short HEAD").read().strip()}
+from sa.inline import fingerprint  # noqa: E402
+
+out = {"functions": sorted(P.funcs), "classes": sorted(P.classes), "fingerprints": {fq: fingerprint(fi.node) for fq, fi in sorted(P.funcs.items())}, "commit": os.popen("git -C /repo rev-parse --short HEAD").read().strip()}
 with open(os.path.join(HERE, "sa", "units_snapshot.json"), "w") as fh:
     json.dump(out, fh, indent=0)
 print(len(out["functions"]), "functions", len(out["classes"]), "classes")
